@@ -648,6 +648,18 @@ func (c *Client) Dial(ctx context.Context) error {
 		return err
 	}
 
+	// all secure channels of the client report to c.sechanErr: drop what
+	// earlier channels left behind (e.g. the EOF of a channel that failed
+	// to open) so that it is not taken for an error of the new channel
+drain:
+	for {
+		select {
+		case <-c.sechanErr:
+		default:
+			break drain
+		}
+	}
+
 	sc, err := uasc.NewSecureChannel(c.endpointURL, c.conn, c.cfg.sechan, c.sechanErr)
 	if err != nil {
 		c.conn.Close()
